@@ -36,7 +36,7 @@ func c45(c *rig.Ctx) {
 	t := newTally()
 	defer t.flush(c)
 
-	nCluster, nPush := c.Pick(1, 40), c.Pick(1, 40)
+	nCluster, nPush := c.Pick(1, 40), c.Pick(1, 20)
 	type job struct {
 		kind string
 		i    int
@@ -50,7 +50,7 @@ func c45(c *rig.Ctx) {
 			jobs = append(jobs, job{"push", i})
 		}
 	}
-	workers := c.Pick(2, 5)
+	workers := c.Pick(2, 6)
 	ch := make(chan job)
 	var wg sync.WaitGroup
 	for w := 0; w < workers; w++ {
@@ -80,7 +80,7 @@ func c45(c *rig.Ctx) {
 	c.Require(t.get("c45.cluster.standby_writes_rejected") >= 1, ">= 1 write rejected by a standby")
 	c.Require(t.get("c45.cluster.acked_writes_checked_after_transition") >= 1, ">= 1 acknowledged write checked after a transition")
 	c.Require(t.get("c45.push.scenarios_completed") >= nPush, "every push/read-replica scenario ran to its end")
-	c.Require(t.get("c45.push.sync_presence_checks") >= 10*nPush, ">= 10 synchronous push presence checks per scenario")
+	c.Require(t.get("c45.push.sync_presence_checks") >= 5*nPush, ">= 5 synchronous push presence checks per scenario")
 	c.Require(t.get("c45.push.async_commits") >= 3*nPush, ">= 3 commits under dolt_async_replication per scenario")
 	c.Require(t.get("c45.replica.distinct_heads") >= 5*nPush, "read replica showed >= 5 distinct heads per scenario")
 }
